@@ -1,15 +1,19 @@
 import Wayfind.Model.Errors
 import Wayfind.Spec.Fault
+import Wayfind.Proofs.ParseErrors
 
 /-! # C14 — template errors point at the real fault
 Rendering half (model of `impl Display for TemplateError`, compared byte for byte with the implementation on every
 error of every run): every positional variant renders the line `    Template: <template>` followed by a caret line of
 14 spaces, `start` spaces and `length` carets (`C14_caret_line`); for a duplicated name the caret line has one run per
 occurrence (`C14_duplicate_caret_runs`, for ranges inside the template).
-Status: **partial** — `parseTemplates input = .error e → faultPresent input e` (Spec/Fault.lean: the template text is
-the input or one of its expansions, positions lie inside it, the indicated bytes are the offending construct) is not
-yet a Lean theorem; it is evaluated as an oracle on the implementation's own error of every rejected string of the
-exhaustive parser streams (every string up to the tier's length, all 13 variants hit). -/
+Fault half, proved (`C14_error_is_about_input_or_expansion`): an `Empty` error only for the empty input; a parenthesis
+error (`()` / unmatched) carries the input itself; every other error carries one of the grammar's expansions of the
+input, and all its positions and lengths lie inside that text (for a duplicated name: two disjoint ranges in order).
+Status: **partial** — that the indicated bytes *are* the construct (the `{}` pair, the unmatched parenthesis, the
+brace-delimited parameter with the empty / invalid / repeated name…) is `faultPresent` of Spec/Fault.lean, evaluated
+as an oracle on the implementation's own error for every rejected string of the exhaustive parser streams (every
+string up to the tier's length, all 13 variants hit); positions of the two parenthesis variants are covered there. -/
 
 theorem C14_caret_line (title t trailer : Bytes) (start len : Nat) :
     renderWith title t (spaces start ++ carets len) trailer =
@@ -57,3 +61,10 @@ theorem C14_duplicate_caret_runs (n f fl s sl : Nat) (h1 : f + fl ≤ s) (h2 : s
     simp only [spaces, List.drop_replicate, List.nil_append]
     congr 1; omega
   rw [hd]
+
+/-- the template text of an error is the input (parenthesis faults) or one of its expansions, and the reported
+ranges lie inside it -/
+theorem C14_error_is_about_input_or_expansion (input : Bytes) (e : TErr) (h : parseTemplates input = .error e) :
+    (e = .empty ∧ input = []) ∨ e.isParen input ∨
+    ∃ es raw, topExpansions input = some es ∧ raw ∈ es ∧ e.tpl = some raw ∧ e.inside raw :=
+  parseTemplates_error_cases input e h
